@@ -4,6 +4,16 @@ import json, os, subprocess
 HERE = os.path.dirname(os.path.dirname(os.path.abspath(__file__)))
 
 CHECKS = {
+ 'C15': dict(
+    category='exploration', design_ref='4/C15',
+    technique='runtime oracle over hop chains: original (type, args, formatted traceback) recorded at the raise site, compared after every RemoteException wrap + pickle hop; forwarded-only hops must keep the text identical; sampled through real Process pipes',
+    text='33 picklable exception classes (special constructors, errno subclasses, custom __init__/__reduce__/keyword-only, attributes, nested exception args, BaseExceptions) x depth 1-40 x 1-6 hops x {forward, re-raise, alternate, seeded} in memory (1 584 chains quick), EnsembleError with mixed members, and chains of 1-3 spawned processes that re-raise what came through the pipe.',
+    note='Trusted: the picklability precondition is tested on the bare exception; not-applicable cases are counted, not judged.'),
+ 'C18': dict(
+    category='exploration', design_ref='4/C18',
+    technique='history with unique request tags + content digests computed independently on both sides; adversarial id() for request ids; delay injection in the client send/receive coroutines; scripted bidirectional pipe exchanges between processes',
+    text='One socket server process per case; client with 1-4 connections, 1-8 requester threads, payloads from empty / newline / header-look-alike bytes, falsy non-None values, unicode, 64 KiB +/- 1, 1-8 MB, nested objects; handler latency reorders responses across connections; each response must carry the request own tag and digest, failing handlers must raise KeyError(tag) with the remote traceback; stream order; the data-less route. Named pipes: 8 (quick) scripted exchanges with objects from 0 B to 1 MB both ways.',
+    note='Trusted: sha256 digests; a 60 s response timeout with stable stacks is a lost response.'),
  'C17': dict(
     category='exploration', design_ref='4/C17, 3.2',
     technique='schedule fuzzer on every statement of IterableQueue.__next__/put_end/renew with a targeted site between `_used_lids.put` and the `full()` test; per-round multiset oracle on unique items; qsize()==0 after renew; bounded-progress watchdog; stop-request latency monitor',
